@@ -85,6 +85,17 @@ class Folder:
             return not self.ev(t[2])
         if k in ("phi", "ifexp"):
             return self.ev(t[2]) if self.ev(t[1]) else self.ev(t[3])
+        if k == "loopout":
+            it = self.ev(t[5]) if len(t) > 5 else None
+            if it is not None and len(it) == 0:
+                return self.ev(t[3])  # loop over an empty collection: the initial value
+            raise AnalysisError(f"loop over a non-empty collection is not constant-foldable: {ir.show(t, maxdepth=2)}")
+        if k == "loopin":
+            return self.ev(t[3])
+        if k == "comp":
+            return self._comp(t)
+        if k == "attr" and t[2] in ("T",):
+            return self.ev(t[1])
         if k == "call":
             f = t[1]
             if f[0] == "global" and f[1] in ("list", "set", "len", "sorted", "tuple"):
@@ -105,6 +116,31 @@ class Folder:
                         kf = lambda x: self._apply(key, x)  # noqa: E731
                         return sorted(arg, key=kf)
                     raise AnalysisError("sorted key not a lambda")
+            if f[0] == "global" and f[1] in ("any", "all", "next", "isinstance", "min", "max"):
+                if f[1] == "isinstance":
+                    v = self.ev(t[2][0])
+                    ty = t[2][1]
+                    names = {"list": list, "dict": dict, "str": str, "tuple": tuple, "set": set, "int": int, "float": float}
+                    if ty[0] == "global" and ty[1] in names:
+                        return isinstance(v, names[ty[1]])
+                    raise AnalysisError("isinstance against a non-builtin type")
+                arg = self.ev(t[2][0])
+                if f[1] == "any":
+                    return any(arg)
+                if f[1] == "all":
+                    return all(arg)
+                if f[1] == "next":
+                    arg = list(arg)
+                    if arg:
+                        return arg[0]
+                    if len(t[2]) > 1:
+                        return self.ev(t[2][1])
+                    raise AnalysisError("next() on an empty iterator without default")
+                return (min if f[1] == "min" else max)(arg)
+            if f[0] == "attr" and f[2] in ("keys", "values", "items") and not t[2]:
+                recv = self.ev(f[1])
+                if isinstance(recv, dict):
+                    return list(getattr(recv, f[2])())
             if f[0] == "attr" and f[2] in ("index", "startswith", "get", "endswith"):
                 recv = self.ev(f[1])
                 args = [self.ev(a) for a in t[2]]
@@ -116,3 +152,33 @@ class Folder:
     def _apply(self, lam, x):
         body = self.b.lambda_apply(lam, [("const", x)])
         return self.ev(body)
+
+    def _comp(self, t):
+        kind, elt, gens, cid = t[1], t[2], t[3], t[4]
+        out = []
+
+        def rec(i, env):
+            if i == len(gens):
+                sub = Folder(self.repo, self.b, env, self.defaultdicts)
+                out.append(sub.ev(elt))
+                return
+            var, it, conds = gens[i]
+            sub = Folder(self.repo, self.b, env, self.defaultdicts)
+            for x in sub.ev(it):
+                e2 = dict(env)
+                el = ir.I(("elem", it, cid))
+                e2[el] = x
+                # tuple targets: elem[i]
+                if isinstance(x, (tuple, list)):
+                    for j, xj in enumerate(x):
+                        e2[ir.I(("sub", el, ("const", j)))] = xj
+                s2 = Folder(self.repo, self.b, e2, self.defaultdicts)
+                if all(s2.ev(c) for c in conds):
+                    rec(i + 1, e2)
+
+        rec(0, dict(self.env))
+        if kind == "dict":
+            return {a: b_ for a, b_ in out}
+        if kind == "set":
+            return set(out)
+        return out
